@@ -219,8 +219,17 @@ func runHarvest(ctx *core.Ctx, pool *par.Pool) {
 // quiescent state reached. Returns statistics and the number of probes.
 func harvestPass(ctx *core.Ctx, pool *par.Pool, cfgNames []string, alphabet func(cfg pagedrv.Cfg) []O, flags []string, depth int, probe string,
 	onTransition func(cfg pagedrv.Cfg) func(from *xstate.Node, s *xstate.Succ, isNew bool, to *xstate.Node)) (total xstate.Stats, probes, seeds int) {
+	return harvestPassStride(ctx, pool, cfgNames, alphabet, flags, depth, probe, onTransition, 1)
+}
+
+// harvestPassStride uses every stride-th seed only.
+func harvestPassStride(ctx *core.Ctx, pool *par.Pool, cfgNames []string, alphabet func(cfg pagedrv.Cfg) []O, flags []string, depth int, probe string,
+	onTransition func(cfg pagedrv.Cfg) func(from *xstate.Node, s *xstate.Succ, isNew bool, to *xstate.Node), stride int) (total xstate.Stats, probes, seeds int) {
 	byCfg := map[string][][]O{}
-	for _, h := range harvestSeeds() {
+	for i, h := range harvestSeeds() {
+		if stride > 1 && i%stride != 0 {
+			continue
+		}
 		byCfg[h.Cfg] = append(byCfg[h.Cfg], h.Path)
 	}
 	for _, name := range cfgNames {
